@@ -409,6 +409,19 @@ impl Loop {
                         query.push((s("key"), pct(&s("value"))));
                     }
                 }
+                "set_query_raw" => {
+                    // the value is already in its wire form (may hold bytes a client would have escaped)
+                    let mut hit = false;
+                    for p in query.iter_mut() {
+                        if p.0 == s("key") {
+                            p.1 = s("value");
+                            hit = true;
+                        }
+                    }
+                    if !hit {
+                        query.push((s("key"), s("value")));
+                    }
+                }
                 "set_path" => {
                     let i = m["index"].as_u64().unwrap() as usize;
                     if i < path.len() {
